@@ -30,7 +30,7 @@ def run(ctx):
     jobs.append(dict(ctx=ctx, binary=binary, name="multi", stacks=multi, outs=seq.OUTS_TY + [seq.out("R0", "E2")], maxcalls=3, execs=2, workers=4))
     rate = [["cbR2"], ["rpW", "cbR2"], ["fbO", "cbR2"]]
     jobs.append(dict(ctx=ctx, binary=binary, name="rate", stacks=rate, outs=[seq.out("R1"), seq.out("R0", "E1")], maxcalls=4, execs=3 if quick else 4, workers=4))
-    tr = [["rpD"], ["rpDL"], ["rpD", "cbA"], ["fbR", "rpD"], ["rpUD"], ["rpD", "bh1"]]
+    tr = [["rpD"], ["rpDL"], ["rpD", "cbA"], ["fbR", "rpD"], ["rpUD"], ["rpD", "bh1"], ["rpDS"], ["rpDS", "cbA"]]
     jobs.append(dict(ctx=ctx, binary=binary, name="maxdur", stacks=tr, outs=[seq.out("R1"), seq.out("R0", "E1"), seq.out("R0", "E1", d=1), seq.out("R0", "E2", d=2)], maxcalls=4, execs=1, workers=4))
     ck = [["cK"], ["rp1", "cK"], ["cK", "rp1"], ["fbR", "cK"], ["cK", "cbA"], ["cIf", "cK"], ["cK", "cbHR"], ["cK", "rpHL"], ["cK", "fbOR"]]
     jobs.append(dict(ctx=ctx, binary=binary, name="ckeys", stacks=ck, outs=seq.OUTS3, maxcalls=2, execs=3, ctxkeys=("none", "k2", "nonstring"), workers=4))
